@@ -8,7 +8,13 @@ On every ./check C29:
      the Any variants), calls ygot.ResolvePath on each and writes Coq case files: the NodePaths read
      back from the path structs, the resolved path, the data path of the GoStruct field tags;
   3. coqc evaluates every case file against Gen/PathStructs.v: (a) model resolve = implementation
-     (finding pathstruct/resolve), (b) element names = tag path (finding pathstruct/tags).
+     (finding pathstruct/resolve), (b) element names = tag path (finding pathstruct/tags);
+  4. the packages generated with -list_builder_key_threshold (builder-style list API: XxxAny() +
+     With<Key>(v) = ygot.ModifyKey in place) are enumerated by the stream `pathbuilder`
+     (harness/ydrive/c29_builder.go): programs of With calls and resolutions on one set of live
+     path structs; coqc evaluates the traces against Gen/PathBuilder.v: the model state evolved by
+     modify_key alone = the NodePaths read back at every resolution, model resolve = implementation
+     (finding pathstruct/builder-model), element names = tag path (finding pathstruct/builder-tags).
 Python stdlib only."""
 import concurrent.futures, json, os, re, time
 import gencorpus
@@ -28,6 +34,13 @@ def eval_file(path):
     return res
 
 
+STREAMS = [
+    # stream, cases quick/thorough, signature of a model mismatch, signature of a tag mismatch
+    ("pathstructs", 3000, 20000, "pathstruct/resolve", "pathstruct/tags"),
+    ("pathbuilder", 2000, 15000, "pathstruct/builder-model", "pathstruct/builder-tags"),
+]
+
+
 def pre(tier, seed):
     t0 = time.time()
     res = {"broken": [], "findings": [], "notes": [], "obligations": 0}
@@ -36,52 +49,69 @@ def pre(tier, seed):
     if not info.get("driver") or info.get("broken"):
         return res
     res["notes"].append("corpus: %s (cached=%s)" % (info["timings"], info.get("cached")))
-    work = os.path.join(gencorpus.OUT, "work", "pathstructs")
-    n = 3000 if tier == "quick" else 20000
-    ok, out, summ = gencorpus.run_dump(info, "pathstructs", work, n=n)
-    if not ok:
-        res["broken"].append({"translator": "stream pathstructs failed", "output": out})
-        return res
-    res["findings"] += summ.get("findings") or []
-    missing = gencorpus.ensure_theories(["Gen/PathStructs", "Gen/PathStructsProofs", "Properties/C29"])
+    missing = gencorpus.ensure_theories(["Gen/PathStructs", "Gen/PathStructsProofs", "Gen/PathBuilder", "Gen/PathBuilderProofs", "Properties/C29"])
     if missing:
         res["broken"].append({"theorem_files": missing, "output": "not built; the case files cannot be evaluated"})
         return res
-    files = [os.path.join(work, f) for f in (summ.get("extra") or {}).get("case_files", [])]
-    if not files:
-        res["broken"].append({"translator": "no package with path structs was generated and compiled", "output": json.dumps(info.get("timings"))})
-    t1 = time.time()
-    mm, tm = [], []
-    with concurrent.futures.ThreadPoolExecutor(max_workers=8) as ex:
-        for r in ex.map(eval_file, files):
-            if "error" in r:
-                res["broken"].append({"correspondence": "pathstructs", "model_errors": [os.path.basename(r["file"]) + ": " + r["error"]]})
-                continue
-            mm += [(os.path.basename(r["file"]), i) for i in r["M"]]
-            tm += [(os.path.basename(r["file"]), i) for i in r["T"]]
-    res["notes"].append("coqc of %d case files: %.1fs" % (len(files), time.time() - t1))
-    have = {f["signature"] for f in res["findings"]}
-    if mm:
-        # the model and the implementation disagree on ResolvePath: a correspondence failure unless the oracle explains it
-        res["broken"].append({"correspondence": "pathstructs", "mismatching_cases": mm[:20]})
-        if "pathstruct/resolve" not in have:
-            res["findings"].append({"signature": "pathstruct/resolve", "what": "ygot.ResolvePath differs from the model's resolve on the dumped NodePath chain",
-                                    "input": {"cases": mm[:10], "seed": seed, "tier": tier}})
-    if tm and "pathstruct/tags" not in have:
-        res["findings"].append({"signature": "pathstruct/tags", "what": "resolved element names differ from the data path of the GoStruct field tags (Coq check)",
-                                "input": {"cases": tm[:10], "seed": seed, "tier": tier}})
+    tot = {"cases": 0, "nontrivial": 0, "oracle_runs": 0, "files": 0, "mm": 0, "tm": 0}
+    cov, rules, samples = {}, [], []
+    for stream, nq, nt, sig_model, sig_tags in STREAMS:
+        work = os.path.join(gencorpus.OUT, "work", stream)
+        ok, out, summ = gencorpus.run_dump(info, stream, work, n=nq if tier == "quick" else nt)
+        if not ok:
+            res["broken"].append({"translator": "stream %s failed" % stream, "output": out})
+            return res
+        res["findings"] += summ.get("findings") or []
+        files = [os.path.join(work, f) for f in (summ.get("extra") or {}).get("case_files", [])]
+        if not files:
+            what = "no package with path structs was generated and compiled" if stream == "pathstructs" else "no package with the builder-style list API (-list_builder_key_threshold) was generated and compiled"
+            res["broken"].append({"translator": what, "output": json.dumps(info.get("timings"))})
+        t1 = time.time()
+        mm, tm = [], []
+        with concurrent.futures.ThreadPoolExecutor(max_workers=8) as ex:
+            for r in ex.map(eval_file, files):
+                if "error" in r:
+                    res["broken"].append({"correspondence": stream, "model_errors": [os.path.basename(r["file"]) + ": " + r["error"]]})
+                    continue
+                mm += [(os.path.basename(r["file"]), i) for i in r["M"]]
+                tm += [(os.path.basename(r["file"]), i) for i in r["T"]]
+        res["notes"].append("%s: coqc of %d case files: %.1fs" % (stream, len(files), time.time() - t1))
+        have = {f["signature"] for f in res["findings"]}
+        if mm:
+            # the model and the implementation disagree: a correspondence failure unless the oracle explains it
+            res["broken"].append({"correspondence": stream, "mismatching_cases": mm[:20]})
+            if sig_model not in have:
+                what = ("ygot.ResolvePath differs from the model's resolve on the dumped NodePath chain" if stream == "pathstructs" else
+                        "a program of With/ModifyKey calls and resolutions: the NodePaths read back differ from the model state, or ygot.ResolvePath differs from the model's resolve on the current state")
+                res["findings"].append({"signature": sig_model, "what": what, "input": {"cases": mm[:10], "seed": seed, "tier": tier}})
+        if tm and sig_tags not in have:
+            res["findings"].append({"signature": sig_tags, "what": "resolved element names differ from the data path of the GoStruct field tags (Coq check)",
+                                    "input": {"cases": tm[:10], "seed": seed, "tier": tier}})
+        tot["cases"] += summ["cases"]
+        tot["nontrivial"] += summ["distinct_nontrivial"]
+        tot["oracle_runs"] += summ.get("oracle_runs") or 0
+        tot["files"] += len(files)
+        tot["mm"] += len(mm)
+        tot["tm"] += len(tm)
+        rules.append("%s: %s" % (stream, summ["rule"]))
+        samples += (summ.get("samples") or [])[:3]
+        short = "c29" if stream == "pathstructs" else "c29b"
+        cov.update({short + "_chains" if stream == "pathstructs" else short + "_resolutions": summ["cases"], short + "_distribution": summ.get("distribution"),
+                    short + "_case_files": len(files), short + "_model_mismatches": len(mm), short + "_tag_mismatches": len(tm)})
+        if stream == "pathbuilder":
+            cov["c29b_programs"] = (summ.get("extra") or {}).get("programs")
+            cov["c29b_packages"] = (summ.get("extra") or {}).get("builder_packages")
+    cov.update({"oracle_runs": tot["oracle_runs"], "correspondence_mismatches": tot["mm"], "traces_validated_against_impl": tot["cases"],
+                "c29_pre_s": round(time.time() - t0, 2)})
     res.update({
         "obligations": 0,
-        "evaluations": summ["cases"],
-        "distinct_nontrivial": summ["distinct_nontrivial"],
-        "programs": summ["cases"],
-        "disagreements_checked": len(mm) + len(tm),
-        "rule": summ["rule"],
-        "samples": (summ.get("samples") or [])[:4],
-        "coverage": {"c29_chains": summ["cases"], "c29_distribution": summ.get("distribution"), "c29_case_files": len(files),
-                     "c29_model_mismatches": len(mm), "c29_tag_mismatches": len(tm), "oracle_runs": summ.get("oracle_runs"),
-                     "correspondence_mismatches": len(mm), "traces_validated_against_impl": summ["cases"],
-                     "c29_pre_s": round(time.time() - t0, 2)},
+        "evaluations": tot["cases"],
+        "distinct_nontrivial": tot["nontrivial"],
+        "programs": tot["cases"],
+        "disagreements_checked": tot["mm"] + tot["tm"],
+        "rule": " | ".join(rules),
+        "samples": samples[:6],
+        "coverage": cov,
     })
     return res
 
